@@ -970,6 +970,7 @@ pub fn apply_fault(t: &mut SupplyTrace, plan: &Plan, f: F, r: &mut Rng, prefer_s
             }
             let si = r.idx(lv.layout.steps.len());
             let step = lv.layout.steps[si].clone();
+            let level_signers: Vec<usize> = lv.doc.signers.clone();
             let mut fs = step_files(lv, &step.name);
             let need = step.threshold.max(1) as usize;
             if fs.len() < need {
@@ -1015,11 +1016,27 @@ pub fn apply_fault(t: &mut SupplyTrace, plan: &Plan, f: F, r: &mut Rng, prefer_s
                         }
                     }
                     F::OwnerAsFunc => {
-                        let o = *r.pick(&owners);
+                        // the key this level's layout is verified with: a caller key at the root, the
+                        // delegating functionary's key inside a sub-layout
+                        let pool = if is_sub && !level_signers.is_empty() { level_signers.clone() } else { owners.clone() };
+                        let o = *r.pick(&pool);
                         doc.signers = vec![o];
                         lv.files[fi].name = link_name(&step.name, &keyspecs, o);
-                        if r.chance(1, 2) && !lv.layout.key_table.contains(&o) {
-                            lv.layout.key_table.push(o);
+                        match r.below(3) {
+                            0 => {}
+                            1 => {
+                                // defined in the key table, trusted for no step
+                                if !lv.layout.key_table.contains(&o) {
+                                    lv.layout.key_table.push(o);
+                                }
+                            }
+                            _ => {
+                                // listed for the step, but not defined in the layout's key table
+                                if !lv.layout.steps[si].pubkeys.contains(&o) {
+                                    lv.layout.steps[si].pubkeys.push(o);
+                                }
+                                lv.layout.key_table.retain(|k| *k != o);
+                            }
                         }
                     }
                     F::SigSwap => {
